@@ -39,15 +39,18 @@ the inline stage on a provably sufficient fuel) answers `ok` for every flag set 
    (`C02_tocRun_err_only_unescape`'s four `unescape` calls meet no STX), the `div.toc` and the new ids hold no STX, so
    the final `UnescapeTreeprocessor` meets bad tokens neither in the old part of the tree (`NodeNB`) nor in the new one.
 
-5. **`C02_convertXBig_ok_toc`**, **`C02_convertXBig_ok_all`** — toc WITHOUT a hypothesis on the headings: for every flag
-   set with toc on and ABBR OFF (the other nine — attr_list, footnotes, fenced_code, … — on or off), every configuration
-   in which STX is not among `ESCAPED_CHARS`, EVERY source: no tree processor raises.  `TocTreeprocessor` applies
-   `unescape` to the serialised heading, and `UnescapeTreeprocessor` applies it AGAIN to the name it wrote into the
-   `div.toc`; the proof follows the heading through both:
+5. **`C02_convertXBig_ok_toc`**, **`C02_convertXBig_ok_all`** — toc WITHOUT a hypothesis on the headings: for EVERY flag
+   set with toc on (all ten others — attr_list, abbr, footnotes, fenced_code, … — on or off), every configuration in
+   which STX is not among `ESCAPED_CHARS`, EVERY source whose abbreviations (when abbr is on) do not start with a digit
+   or with `k`, `w`, `q`, `z` (`AbbrHeads`, decidable): no tree processor raises.  `TocTreeprocessor` applies `unescape`
+   to the serialised heading, and `UnescapeTreeprocessor` applies it AGAIN to the name it wrote into the `div.toc`; the
+   proof follows the heading through both:
    * the token invariant is strengthened to "no escape token has the value 2" (`TokH`, `C02_stx_token_invariant_safe`:
-     `unescape` never WRITES an STX), tag and attribute names hold no STX (`C02Names.NamesOk`), `AttrListTreeprocessor`
-     keeps both (`C02_attr_list_keeps_tokens`; it is false for the plain invariant — a class appended behind a `class`
-     value that ends in a cut token — hence `NodeSC`);
+     `unescape` never WRITES an STX), tag and attribute names hold no STX (`C02Names.NamesOk`);
+     `AttrListTreeprocessor` keeps both (`C02_attr_list_keeps_tokens`; it is false for the plain invariant — a class
+     appended behind a `class` value that ends in a cut token — hence `NodeSC`), and so does `AbbrTreeprocessor` under
+     `AbbrHeads` (`C02_abbr_keeps_tokens`: it cuts a text in front of the first character of an abbreviation; without
+     the hypothesis the abbreviation `42` cuts the token of `\*` in two, `STX<abbr>42</abbr>ETX`, F-C10-6);
    * the serialisation of a heading is of the class `Z0c` (`C02_serialized_heading_class`): every STX is followed by a
      letter `k w q z`, a complete safe token, or is DEAD — digits up to the closing quote of an attribute value;
    * `unescape` maps `Z0` into `Z3` (`C02_unescape_twice`: every STX is followed by a letter or is dead), which cutting
@@ -55,8 +58,7 @@ the inline stage on a provably sufficient fuel) answers `ok` for every flag set 
      `escape` keep (`C02_toc_name_ops_keep_class`: all of them rewrite at characters that are no letter `k w q z`, no
      digit and no `"`), and a `Z3` string holds no bad token;
    so `TocTreeprocessor.run` never answers `err` (`C02_tocRun_never_err`) and its tree holds no bad token.
-   With abbr AND toc the partial statement of 4. remains (`TocHyp`): an abbreviation can cut an escape token in two,
-   `STX<abbr>42</abbr>ETX`, which `strip_tags` glues together again — the class `Z3` does not cover that.
+   When an abbreviation does start with such a character the partial statement of 4. remains (`TocHyp`).
 
 Only property statements live here; proofs in `MdVerif/Lemmas/C02Fn*.lean`.  Core Lean only.
 -/
@@ -348,6 +350,16 @@ example : (C02FnHAttr.cex.children.map (fun c => c.attrs.map (fun kv => TokH.SOk
     (AttrListTree.run [] C02FnHAttr.cex).children.map (fun c => c.attrs.map (fun kv => (kv.2, TokH.SOkA kv.2)))) =
     ([[true]], [[("\x024 foo".toList, false)]]) := by decide
 
+/-- **`AbbrTreeprocessor` keeps the token invariant when no abbreviation starts with a character that may follow an
+    STX** (`hk`: no digit, not `k w q z`; `hks`, `ht`: abbreviations without STX, titles complete up to a cut — in the
+    pipeline the table comes from the source, which holds no STX): the text in front of an occurrence ends in front of
+    the first character of the abbreviation, the text behind it is a suffix. -/
+theorem C02_abbr_keeps_tokens (abbrs : List (Str × Str))
+    (hk : ∀ kv ∈ abbrs, ∀ c, kv.1.head? = some c → TokH.cutOk c = true) (hks : ∀ kv ∈ abbrs, TreeProc.STX ∉ kv.1)
+    (ht : ∀ kv ∈ abbrs, TokH.SOkA kv.2 = true) {t : Node} (h : t.Forall TokH.NodeS) :
+    (AbbrTree.run abbrs t).Forall TokH.NodeS :=
+  C02FnHAbbr.abbrRun_S abbrs hk hks ht h
+
 /-- **The serialisation of a tree whose texts are complete (`Z0c`), whose attribute values are complete up to a cut at
     the end (`ZA`) and whose names hold no STX is of the class `Z0c`**: every STX is followed by a letter `k w q z`, by a
     complete safe escape token, or by decimal digits up to a `"` (a cut token in front of the closing quote of its
@@ -393,29 +405,32 @@ theorem C02_tocRun_never_err {env : TocTree.Env} (hpost : ∀ s o, env.post s = 
       ∃ t', TocTree.run env bl root = .ok t' ∧ t'.Forall C02BigNB.NodeNB :=
   run_Z hpost bl root hn
 
-/-- **`Markdown.convert` never raises — every flag set**; with toc: abbr off and STX not escapable, or `tocClean`
-    (`TocHyp`, decidable).  EVERY source (`tab_length ≥ 1` with fenced_code). -/
+/-- **`Markdown.convert` never raises — every flag set**; with toc: STX not escapable and (with abbr) `AbbrHeads`, or
+    `tocClean` (`TocHyp`, decidable).  EVERY source (`tab_length ≥ 1` with fenced_code). -/
 theorem C02_convertXBig_never_err_all (x : Exts) (cfg : Cfg) (src : Str)
     (htab : x.fencedCode = true → 0 < cfg.tab) (hcl : x.toc = true → TocHyp x cfg src) :
     convertXBig x cfg src ≠ .err :=
   convertXBig_ne_err_full cfg src htab hcl
 
-/-- **C02 with toc — `convert` returns a string**: toc ON, abbr off, the other nine extensions (attr_list, footnotes,
+/-- **C02 with toc — `convert` returns a string**: toc ON, the other TEN extensions (attr_list, abbr, footnotes,
     fenced_code, tables, admonition, def_list, sane_lists, nl2br, wikilinks) on or off; every configuration in which
     STX is not among `ESCAPED_CHARS` (`tab_length ≥ 1` with admonition or fenced_code); every `<`-free source of the
-    model's domain (`treeOod = false`) — headings with backslash escapes, entity references, links whose destinations
-    hold escaped `>` or quotes, attribute lists with escapes in ids and labels, footnote references included. -/
-theorem C02_convertXBig_ok_toc (x : Exts) (htoc : x.toc = true) (hab : x.abbr = false) (cfg : Cfg)
+    model's domain (`treeOod = false`) whose abbreviations, when abbr is on, start with no digit and none of `k w q z`
+    (`AbbrHeads (abbrTable x cfg src)`, decidable) — headings with backslash escapes, entity references, links whose
+    destinations hold escaped `>` or quotes, attribute lists with escapes in ids and labels, abbreviations, footnote
+    references included. -/
+theorem C02_convertXBig_ok_toc (x : Exts) (htoc : x.toc = true) (cfg : Cfg)
     (hesc : cfg.esc.contains Inline.STX = false) (src : Str) (hlt : '<' ∉ src)
+    (hab : x.abbr = true → AbbrHeads (abbrTable x cfg src))
     (htab : x.admonition = true ∨ x.fencedCode = true → 0 < cfg.tab) (hd : treeOod x cfg src = false)
     (hw : x.wikilinks = true → WikiSrc cfg src) : ∃ out, convertXBig x cfg src = .ok out :=
-  convertXBig_ok_full cfg src hlt htab hd hw (fun _ => .inl ⟨hab, hesc⟩)
+  convertXBig_ok_full cfg src hlt htab hd hw (fun _ => .inl ⟨hesc, hab⟩)
 
 /-- **C02 for the whole extension model: every subset of the eleven extensions**, every configuration (`tab_length ≥ 1`
     with admonition or fenced_code), every `<`-free source of the model's domain (`treeOod = false`; without toc:
     `InDomainFn`, `C02_domain_without_toc`) under the decidable hypotheses `WikiSrc` (with wikilinks: no `[` immediately
-    followed by a blank) and `TocHyp` (with toc: abbr off and STX not among `ESCAPED_CHARS` — or the headings handed to
-    `TocTreeprocessor` hold no STX): `convertXBig x cfg src = ok out` — every loop of every stage ends within its
+    followed by a blank) and `TocHyp` (with toc: STX not among `ESCAPED_CHARS` and, with abbr, no abbreviation starting
+    with a digit or `k w q z` — or the headings handed to `TocTreeprocessor` hold no STX): `convertXBig x cfg src = ok out` — every loop of every stage ends within its
     fuel, and nothing raises. -/
 theorem C02_convertXBig_ok_all (x : Exts) (cfg : Cfg) (src : Str) (hlt : '<' ∉ src)
     (htab : x.admonition = true ∨ x.fencedCode = true → 0 < cfg.tab) (hd : treeOod x cfg src = false)
@@ -435,23 +450,33 @@ theorem C02_convertX_ok_or_stack_fuel_all (x : Exts) (cfg : Cfg) (src : Str) (hl
     refine ⟨out, ?_, ho⟩
     rw [← convertXBig_of_convertX_ne_oof_all h, ho]
 
-/-- ten extensions on (all but abbr): a heading with escapes (`\*`, `\_` inside emphasis), a link whose destination
-    holds an escaped `>` and whose title an escaped quote, an entity reference, a character reference without `;`, a
-    footnote reference, an attribute list with an escape in the id and in a `data-toc-label`; two equal headings with a
-    bare `&`, a code span and a wiki link; a heading with an escaped `#` inside an admonition -/
-def xNoAbbr : Exts := { xAllOn with abbr := false }
+/-- ALL ELEVEN on: a heading with escapes (`\\*`, `\\_` inside emphasis), an abbreviation, a link whose destination holds
+    an escaped `>` and whose title an escaped quote, an entity reference, a character reference without `;`, a footnote
+    reference, an attribute list with an escape in the id and in a `data-toc-label`; two equal headings with a bare
+    `&`, a code span and a wiki link; a heading with an escaped `#` inside an admonition; an abbreviation whose title
+    holds an escape -/
 def srcEsc : Str :=
-  ("[TOC]\n\n# T \\* *e\\_* [l](/u\\>v \"t \\\"q\") &amp; &#38x[^1] {: #i\\-d .c data-toc-label=\"L \\* &lt;\" }\n\n" ++
-   "## a & b `c\\*` [[W p]]\n\n## a & b `c\\*` [[W p]]\n\ntext[^1] \\*\n\n!!! note\n    ### in \\# adm {: #x }\n\n[^1]: note\n").toList
+  ("[TOC]\n\n# T \\* HTML *e\\_* [l](/u\\>v \"t \\\"q\") &amp; &#38x[^1] {: #i\\-d .c data-toc-label=\"L \\* &lt;\" }\n\n" ++
+   "## a & b `c\\*` [[W p]]\n\n## a & b `c\\*` [[W p]]\n\n*[HTML]: Hyper \\* Text\n\ntext[^1] \\* HTML\n\n" ++
+   "!!! note\n    ### in \\# adm {: #x }\n\n[^1]: note HTML\n").toList
 
 /-- the hypotheses of `C02_convertXBig_ok_toc` hold for it — and `tocClean` does not -/
-example : xNoAbbr.toc = true ∧ xNoAbbr.abbr = false ∧ ({} : Cfg).esc.contains Inline.STX = false ∧ '<' ∉ srcEsc ∧
-    0 < ({} : Cfg).tab ∧ treeOod xNoAbbr {} srcEsc = false ∧ WikiSrc {} srcEsc ∧ tocClean xNoAbbr {} srcEsc = false := by
+example : xAllOn.toc = true ∧ ({} : Cfg).esc.contains Inline.STX = false ∧ '<' ∉ srcEsc ∧
+    AbbrHeads (abbrTable xAllOn {} srcEsc) ∧ 0 < ({} : Cfg).tab ∧ treeOod xAllOn {} srcEsc = false ∧
+    WikiSrc {} srcEsc ∧ tocClean xAllOn {} srcEsc = false := by
   decide +kernel
 
-/-- 1053 characters, the output of the implementation -/
-example : (match convertXBig xNoAbbr {} srcEsc, convertX xNoAbbr {} srcEsc with
-    | .ok a, .ok b => decide (a = b) && decide (a.length = 1053)
+/-- 1173 characters, the output of the implementation -/
+example : (match convertXBig xAllOn {} srcEsc, convertX xAllOn {} srcEsc with
+    | .ok a, .ok b => decide (a = b) && decide (a.length = 1173)
     | _, _ => false) = true := by decide +kernel
+
+/-- the point excluded by `AbbrHeads`: the abbreviation `42` cuts the escape token of `\\*` in the heading; `strip_tags`
+    glues it together again and the second `unescape` turns it into `*` (the output of the implementation) -/
+example : ¬ AbbrHeads (abbrTable { abbr := true, toc := true } {} "*[42]: answer\n\n# \\*".toList) ∧
+    convertXBig { abbr := true, toc := true } {} "*[42]: answer\n\n# \\*\n\n[TOC]".toList =
+      .ok ("<h1 id=\"42\">\x02<abbr title=\"answer\">42</abbr>\x03</h1>\n<div class=\"toc\">\n<ul>\n" ++
+           "<li><a href=\"#42\">*</a></li>\n</ul>\n</div>").toList := by
+  decide +kernel
 
 end MdVerif.C02Fn
